@@ -123,6 +123,7 @@ type c15scn struct {
 	closeOnSD  bool
 	idleTO     time.Duration
 	size       byte // 0/'S': bound 1 quick, 2 thorough; 'M': 1, 1; 'L' (two connections): 0 quick, 1 thorough
+	twoCycles  bool // the Server has been through a complete Serve/Shutdown cycle before the scenario proper
 	wcap0      bool // unbuffered worker hand-off channel (what a GOMAXPROCS=1 process uses)
 }
 
@@ -179,6 +180,10 @@ func c15body(sc c15scn) func() {
 		}
 		s.Handler = func(ctx *RequestCtx) {
 			p := string(ctx.Path())
+			if strings.HasPrefix(p, "/c1") { // first Serve/Shutdown cycle of a re-used Server: not what the oracle judges
+				ctx.SetBodyString("ok:" + p)
+				return
+			}
 			o.started = append(o.started, p)
 			o.ev("handler start %s", p)
 			if o.shutdownCalled {
@@ -204,6 +209,51 @@ func c15body(sc c15scn) func() {
 			o.running--
 			o.ev("handler end %s", p)
 		}
+		timers0 := 0
+		if sc.twoCycles {
+			// cycle 1 on the same Server: Serve, one request, the connection left idle, a Shutdown that completes. Driven
+			// sequentially by the main thread; only what it leaves behind in the Server matters for cycle 2.
+			ln1 := fasthttputil.NewInmemoryListener()
+			serve1 := false
+			mcrt.GoNamed("serve-cycle1", func() {
+				s.Serve(&c15listener{Listener: ln1, o: o}) //nolint:errcheck
+				serve1 = true
+			})
+			mcrt.WaitUntil("serve1-ready", func() bool { return len(s.ln) > 0 && mcrt.PendingTimers() > 0 })
+			c1, err := ln1.Dial()
+			if err != nil {
+				o.notes = append(o.notes, "cycle 1: dial: "+err.Error())
+				return
+			}
+			c1.Write([]byte("GET /c1 HTTP/1.1\r\nHost: x\r\n\r\n")) //nolint:errcheck
+			var got []byte
+			tmp := make([]byte, 256)
+			for {
+				if r, _ := c15responses(got); len(r) >= 1 {
+					break
+				}
+				n, err := c1.Read(tmp)
+				got = append(got, tmp[:n]...)
+				if err != nil {
+					break
+				}
+			}
+			if r, _ := c15responses(got); len(r) != 1 || r[0][1] != "ok:/c1" {
+				o.notes = append(o.notes, fmt.Sprintf("cycle 1: response %q", got))
+				return
+			}
+			if err := s.Shutdown(); err != nil {
+				o.notes = append(o.notes, "cycle 1: Shutdown: "+err.Error())
+				return
+			}
+			mcrt.WaitUntil("serve1-returned", func() bool { return serve1 })
+			c1.Close()
+			o.closedByShutdown, o.failedWrites = 0, 0
+			o.log = nil
+			mtime.Sleep(11 * time.Second) // the stopped pool's cleaner wakes up (10s) and exits
+			timers0 = mcrt.PendingTimers()
+			mcrt.Covered("second-serve-shutdown-cycle-on-same-server")
+		}
 		ln := fasthttputil.NewInmemoryListener()
 		mcrt.GoNamed("serve", func() {
 			o.serveErr = s.Serve(&c15listener{Listener: ln, o: o})
@@ -213,7 +263,7 @@ func c15body(sc c15scn) func() {
 		// set-up is sequential (it is not what the property quantifies over, and free choices at blocking points multiply):
 		// the first client dials once Serve has registered the listener and the worker pool's cleaner has gone to sleep;
 		// client i+1 starts when client i has finished its opening steps (everything before its 'e' / 's' step)
-		mcrt.WaitUntil("serve-ready", func() bool { return len(s.ln) > 0 && mcrt.PendingTimers() > 0 })
+		mcrt.WaitUntil("serve-ready", func() bool { return len(s.ln) > 0 && mcrt.PendingTimers() > timers0 })
 		for ci := range sc.scripts {
 			ci := ci
 			if ci > 0 {
@@ -376,6 +426,9 @@ func c15check(sc c15scn) func(x *mcrt.Exec) (string, string, string) {
 			return "", "", ""
 		}
 		if len(o.notes) > 0 {
+			if strings.HasPrefix(o.notes[0], "cycle 1") {
+				return "note", "first-serve-shutdown-cycle-failed", o.notes[0]
+			}
 			return "note", "done-closed-early", o.notes[0]
 		}
 		if o.shutdownErr != nil {
@@ -453,7 +506,7 @@ func c15first(s string, n int) string {
 func TestVerif_C15(t *testing.T) {
 	r := vrt.Begin(t, "C15", "model_checking")
 	defer r.End()
-	r.Rule("real Server.Serve on an InmemoryListener with 1-2 scripted client connections (idle keep-alive; slow handler waiting for ctx.Done(); pipelined pair; request sent on an idle connection while Shutdown runs) and a thread calling ShutdownWithContext (background / deadline context), MaxConnsPerIP 0/1; " +
+	r.Rule("real Server.Serve on an InmemoryListener with 1-2 scripted client connections (idle keep-alive; slow handler waiting for ctx.Done(); pipelined pair; request sent on an idle connection while Shutdown runs) and a thread calling ShutdownWithContext (background / deadline context), MaxConnsPerIP 0/1, also on a Server that already went through one complete Serve/Shutdown cycle; " +
 		"all schedules, select choices and timer-first orders up to the deviation bound; oracle when Shutdown returns nil: Serve returned, no handler running, Dial fails, every request whose handler started has its complete 200 response on its connection, every connection was closed by the server (idle ones without waiting), a handler blocked on Done() is woken; non-trivial: executions with >=1 deviation")
 	r.Assume("mcrt shim semantics (litmus-tested)", "sync.Pool modelled as deterministic LIFO")
 	b := vrt.Pick(r, 1, 2)
@@ -494,8 +547,14 @@ func TestVerif_C15(t *testing.T) {
 		c15scn{size: 'L', name: "perip0/idle+idle/bg", scripts: [][]c15step{idle, {W("/b1"), R(1), E}}, trigger: "resp:1:1"},
 		c15scn{size: 'L', name: "perip1/idle+late/ctx1s", perIP: 1, scripts: [][]c15step{idle, {W("/b1"), R(1), S, W("/nap2"), E}}, trigger: "resp:1:1", ctxTimeout: time.Second},
 	)
+	list = append(list,
+		c15scn{size: 'M', twoCycles: true, name: "second-cycle/perip0/slow/bg", scripts: one(slow), trigger: "started:/slow1"},
+		c15scn{size: 'M', twoCycles: true, name: "second-cycle/perip0/pipelined/bg", scripts: one(pipe), trigger: "started:/slow1"},
+		c15scn{size: 'M', twoCycles: true, name: "second-cycle/perip1/slow/ctx1s", perIP: 1, scripts: one(slow), trigger: "started:/slow1", ctxTimeout: time.Second},
+	)
 	if r.Thorough() {
 		list = append(list,
+			c15scn{size: 'M', twoCycles: true, name: "second-cycle/perip1/idle/bg", perIP: 1, scripts: one(idle), trigger: "resp:0:1"},
 			c15scn{size: 'L', name: "perip0/slow+pipelined/bg", scripts: [][]c15step{{W("/slow0"), E}, {W("/slow1", "/b2"), E}}, trigger: "started:/slow1"},
 			c15scn{size: 'L', name: "perip1/idle+pipelined/ctx1s", perIP: 1, scripts: [][]c15step{idle, pipe}, trigger: "started:/slow1", ctxTimeout: time.Second},
 		)
